@@ -327,7 +327,9 @@ func baseRawGet(L *LState) int {
 
 func baseRawSet(L *LState) int {
 	L.RawSet(L.CheckTable(1), L.CheckAny(2), L.CheckAny(3))
-	return 0
+	// Lua 5.1: "This function returns table" (lbaselib.c luaB_rawset: return 1)
+	L.SetTop(1)
+	return 1
 }
 
 func baseSelect(L *LState) int {
